@@ -29,7 +29,13 @@ let pos_of_hex (h : mlstring) : positive option =
                               | Some q -> Some (if bit then XI q else XO q))
       done) h;
   !acc
+(* an integer argument may carry a tag saying as what kind of Python object the implementation receives it
+   ("h:" a member object held from an earlier conversion, "f:"/"g:" a member of another enum, "b:" a bool,
+   "u:" a numpy integer): the model sees the integer *)
+let strip_tag (s : mlstring) : mlstring =
+  match String.index_opt s ':' with Some i -> String.sub s (i + 1) (String.length s - i - 1) | None -> s
 let z_of_hex (s : mlstring) : z =
+  let s = strip_tag s in
   let neg = String.length s > 0 && s.[0] = '-' in
   let h = if neg then String.sub s 1 (String.length s - 1) else s in
   match pos_of_hex h with None -> Z0 | Some p -> if neg then Zneg p else Zpos p
@@ -87,11 +93,13 @@ let () =
                       | None -> table := []; cur := init []; print_endline "none")
        | ["T"; ms] -> let t = members_of ms in table := t; cur := init t; mask := None;
                       print_endline ("ok " ^ string_of_int (List.length t) ^ " " ^ b2s (table_ok t))
-       | ["C"; v; s] -> do_op (OpCall (z_of_hex v, s = "1"))
+       | ["C"; v; s] | ["C"; v; s; _] -> do_op (OpCall (z_of_hex v, s = "1"))
        | ["N"; n; s] -> do_op (OpCallName (coq_str n, s = "1"))
        | ["G"; n] -> do_op (OpGetName (coq_str n))
        | ["I"; v] -> do_op (OpGetInt (z_of_hex v))
        | ["F"; n] -> do_op (OpFromStringCI (coq_str n))
+       | ["IT"; vs] -> do_op (OpIterDuring (List.map z_of_hex (split_on ',' vs)))
+       | ["RIT"; vs] -> do_op (OpReversedDuring (List.map z_of_hex (split_on ',' vs)))
        | ["L"] -> do_op OpIter
        | ["K"] -> do_op OpLen
        | ["R"] -> do_op OpReversed
